@@ -90,6 +90,17 @@ Theorem C20_skip_body_threshold : forall e e1 body k,
 Proof. exact skip_body_threshold. Qed.
 Print Assumptions C20_skip_body_threshold.
 
+(* one Request object serialised again: the same bytes, and no further change of the request
+   (as_bytes(skip_body=True) never changes it: C20_skip_body_omits_only_body) *)
+Theorem C20_as_bytes_repeatable : forall e b e1,
+  as_bytes SkipNo e = Ok (b, e1) -> as_bytes SkipNo e1 = Ok (b, e1).
+Proof. exact as_bytes_repeatable. Qed.
+Print Assumptions C20_as_bytes_repeatable.
+
+Theorem C20_body_rereadable : forall e e1 body, acquire e = Ok (e1, body) -> acquire e1 = Ok (e1, body).
+Proof. exact acquire_idempotent. Qed.
+Print Assumptions C20_body_rereadable.
+
 (* the header-entry hypothesis holds for every key a WSGI server builds (HTTP_ + [A-Z0-9_]+,
    CONTENT_TYPE, CONTENT_LENGTH) with any tight ASCII value *)
 Theorem C20_cgi_keys_are_wf : forall k v, cgi_header_key k -> good_hvalue v -> wf_entry (k, v).
